@@ -128,6 +128,8 @@ mod rewind;
 pub mod server;
 pub mod service;
 pub mod stream;
+#[cfg(feature = "verif-hooks")]
+pub mod verif_hooks;
 
 pub use body::Body;
 #[cfg(feature = "client")]
